@@ -242,6 +242,10 @@ func TestC09Range(t *testing.T) {
 
 		for i := 0; i < n; i++ {
 			id := rapid.StringMatching(`[a-f]{1,2}`).Draw(t, "id")
+			if rapid.IntRange(0, 11).Draw(t, "emptyid") == 0 {
+				id = "" // a member whose ID is missing (still unique)
+			}
+
 			if seen[id] {
 				continue
 			}
